@@ -134,6 +134,77 @@ def run(rep: core.Report):
     rep.note("Not decided: that svecs are the minimum-image vectors (C05), equality with a closed-form crystal, NAC paths (C08).")
 
 
+
+def _r02h(rep):
+    """The shortest-vector kernels take the reduced basis and the integer change of basis as column vectors: each is the
+    transpose of what ShortestPairs._transform_cell_basis computes, exactly once on the way to every call site."""
+    CELLS = "phonopy/structure/cells.py"
+    rep.rule("R02h", "orientation of the matrices handed to the shortest-vector kernels: the reduced basis (rows = basis vectors from get_reduced_bases) and the integer matrix rint(inv(trans_mat)) reach gsv_set_smallest_vectors_dense / _sparse transposed exactly once, counting transpositions inside _transform_cell_basis and at the call site, at all call sites alike", 6)
+
+    def peel(e):
+        par = 0
+        while True:
+            if isinstance(e, ast.Call) and core.src(e.func) in ("np.array", "np.asarray", "np.ascontiguousarray") and e.args:
+                e = e.args[0]
+            elif isinstance(e, ast.Call) and isinstance(e.func, ast.Attribute) and e.func.attr in ("copy", "astype"):
+                e = e.func.value
+            elif isinstance(e, ast.Attribute) and e.attr == "T":
+                e, par = e.value, par ^ 1
+            elif isinstance(e, ast.Call) and core.src(e.func) == "np.transpose" and len(e.args) == 1:
+                e, par = e.args[0], par ^ 1
+            else:
+                return e, par
+
+    tcb = core.find_def(CELLS, "ShortestPairs._transform_cell_basis")
+    # roles inside the producer: the reduced basis comes from get_reduced_bases, the integer matrix from rint(inv(.))
+    roles = {}
+    for st in ast.walk(tcb):
+        if isinstance(st, ast.Assign) and len(st.targets) == 1 and isinstance(st.targets[0], ast.Name):
+            v = core.src(st.value)
+            if "get_reduced_bases(" in v:
+                roles[st.targets[0].id] = "reduced basis"
+            elif v.startswith("np.rint(") and ".astype(" in v:
+                inner = st.value
+                while isinstance(inner, ast.Call) and not core.src(inner.func) == "np.rint":
+                    inner = inner.func.value if isinstance(inner.func, ast.Attribute) else inner.args[0]
+                arg = inner.args[0] if isinstance(inner, ast.Call) and inner.args else None
+                arg = core.resolve_name(tcb, arg) if arg is not None else None
+                if arg is not None and "np.linalg.inv(" in core.src(arg):
+                    roles[st.targets[0].id] = "inverse change of basis"
+    rets = [r.value for r in ast.walk(tcb) if isinstance(r, ast.Return) and r.value is not None]
+    r0 = core.resolve_name(tcb, rets[-1]) if rets else None
+    if not isinstance(r0, ast.Tuple) or set(roles.values()) != {"reduced basis", "inverse change of basis"}:
+        raise AnalysisError("R02h: ShortestPairs._transform_cell_basis no longer returns a tuple with the reduced basis and the inverse change of basis")
+    out_pos = {}
+    for k, el in enumerate(r0.elts):
+        root, par = peel(el)
+        if isinstance(root, ast.Name) and root.id in roles:
+            out_pos[k] = (roles[root.id], par)
+    if len(out_pos) != 2:
+        raise AnalysisError("R02h: the two matrices are not among the returned values")
+    cls = core.find_def(CELLS, "ShortestPairs")
+    n_sites = 0
+    for m in [x for x in cls.body if isinstance(x, ast.FunctionDef)]:
+        unp = [st for st in ast.walk(m) if isinstance(st, ast.Assign) and isinstance(st.targets[0], ast.Tuple) and isinstance(st.value, ast.Call) and core.src(st.value.func).endswith("_transform_cell_basis")]
+        if not unp:
+            continue
+        local = {}
+        for k, t in enumerate(unp[0].targets[0].elts):
+            if k in out_pos and isinstance(t, ast.Name):
+                local[t.id] = out_pos[k]
+        for c in ast.walk(m):
+            if isinstance(c, ast.Call) and "gsv_set_smallest_vectors" in core.src(c.func):
+                for a in c.args:
+                    root, par = peel(a)
+                    if isinstance(root, ast.Name) and root.id in local:
+                        role, p0 = local[root.id]
+                        n_sites += 1
+                        rep.instance("R02h", CELLS, f"ShortestPairs.{m.name}", f"{core.src(c.func).split('.')[-1]}: {role} passed as {core.norm(core.src(a), 60)}", (par ^ p0) == 1,
+                                     f"the {role} reaches {core.src(c.func).split('.')[-1]} transposed {par + p0} times (inside _transform_cell_basis: {p0}, at the call: {par}); the kernel reads it as column vectors, so with an even count it searches with the wrong metric / maps the vectors back with the transposed matrix whenever the matrix is not symmetric (reordered or sheared reduced cells)", line=a.lineno)
+    if n_sites < 6:
+        raise AnalysisError(f"R02h: {n_sites} matrix arguments found at the shortest-vector call sites, 6 confirmed by reading")
+
+
 _run_main = run
 
 
@@ -142,6 +213,7 @@ def run(rep: core.Report):
 
     _run_main(rep)
     shared_trunc.run(rep, "R02g")
+    _r02h(rep)
 
 
 
@@ -288,6 +360,7 @@ def selftest():
     b("shortest vectors converted with inv(primitive matrix) untransposed", "phonopy/structure/cells.py", "        trans_mat_float = np.dot(supercell_bases, np.linalg.inv(primitive_bases))", "        trans_mat_float = np.linalg.inv(self._primitive_matrix)", "R02f", "_get_smallest_vectors")
     n("image selection written positively", DYN, "        if (s2p_map[k] != p2s_map[j]) {\n            continue;\n        }\n        get_dm(dm, num_patom, num_satom, fc, q, svecs, multi, p2s_map,\n               charge_sum, i, j, k);", "        if (s2p_map[k] == p2s_map[j]) {\n            get_dm(dm, num_patom, num_satom, fc, q, svecs, multi, p2s_map,\n                   charge_sum, i, j, k);\n        }")
     n("forward phase accumulated with 2 pi inside", DYN, "            phase += q[m] * svecs[adrs + l][m];\n        }\n        cos_phase += cos(phase * 2 * PI) / m_pair;\n        sin_phase += sin(phase * 2 * PI) / m_pair;", "            phase += 2 * PI * q[m] * svecs[adrs + l][m];\n        }\n        cos_phase += cos(phase) / m_pair;\n        sin_phase += sin(phase) / m_pair;")
+    b("sparse shortest vectors: reduced basis passed untransposed", "phonopy/structure/cells.py", "            np.array(reduced_bases.T, dtype=\"double\", order=\"C\"),\n            np.array(trans_mat_inv.T, dtype=\"intc\", order=\"C\"),", "            np.array(reduced_bases, dtype=\"double\", order=\"C\"),\n            np.array(trans_mat_inv.T, dtype=\"intc\", order=\"C\"),", "R02h", "reduced basis")
     from rules import shared_trunc
 
     shared_trunc.variants(b, None, "R02g")
